@@ -235,3 +235,49 @@ def single_variants(name, e, two_d, base=None):
             if v != base.get(pn, default):
                 out.append(dict(base, **{pn: v}))
     return out
+
+
+# --------------------------------------------------------------------------------------------------
+# x-axis magnitude kinds.  The properties quantify over ALL x: the same relative point positions must be served on axes of any unit
+# (metres at the nm scale, seconds at the ps / as scale, epoch time stamps: a huge offset with a narrow range, negative ranges).
+# Every kind is an increasing affine image of the given x, so the B-spline basis, the LOESS windows, the hull ... of the mapped
+# problem are those of the original one.  ('scale', s): x * s.  ('window', a, w): a + w * (x - min x) / (max x - min x).
+X_MAGNITUDES = {
+    '1e-30': ('scale', 1e-30), '1e-18': ('scale', 1e-18), '1e-9': ('scale', 1e-9), '1': ('scale', 1.0), '1e9': ('scale', 1e9),
+    '1e30': ('scale', 1e30),
+    '1.7e9+[0,1e3]': ('window', 1.7e9, 1e3), '1e6+[0,1e-3]': ('window', 1e6, 1e-3),
+    '[-700,-200]': ('window', -700.0, 500.0), '-1.7e9+[0,1e3]': ('window', -1.7e9, 1e3), '-4e-7+[0,3e-7]': ('window', -4e-7, 3e-7),
+}
+X_MAGNITUDE_KINDS = tuple(X_MAGNITUDES)
+X_MAGNITUDE_UNUSUAL = tuple(k for k in X_MAGNITUDES if k != '1')
+
+
+def x_magnitude(x, kind, dyadic=False):
+    """(x', factor): the increasing affine image of `x` on the axis of magnitude `kind` and the factor by which every DIFFERENCE of
+    x-values was multiplied (what a length such as loess' `delta` has to be multiplied with to mean the same thing).
+    `dyadic=True`: the factor is rounded down to a power of two and the offset of a window is added to x - min(x); for x whose
+    entries are dyadic rationals with few bits (the generators of the exact comparisons) the image is then computed WITHOUT any
+    rounding, so every float comparison / difference of the mapped problem is the exact image of the original one."""
+    x = np.asarray(x, dtype=float)
+    what = X_MAGNITUDES[kind]
+    if what[0] == 'scale':
+        s = float(what[1])
+        if dyadic:
+            s = 2.0 ** int(np.floor(np.log2(s)))
+        return x * s, s
+    a, w = float(what[1]), float(what[2])
+    lo, hi = float(np.min(x)), float(np.max(x))
+    span = hi - lo if hi > lo else 1.0
+    s = w / span
+    if dyadic:
+        s = 2.0 ** int(np.floor(np.log2(s)))
+        return a + (x - lo) * s, s
+    return a + (x - lo) * s, s
+
+
+def x_magnitude_cycle(start=0, kinds=X_MAGNITUDE_KINDS):
+    """endless round-robin over the magnitude kinds (deterministic coverage: every kind is used once per len(kinds) cases)"""
+    i = start
+    while True:
+        yield kinds[i % len(kinds)]
+        i += 1
